@@ -103,6 +103,9 @@ func areaSyncloop(r *Rng, n int, dir string) (*AreaOut, error) {
 		if err != nil {
 			return nil, fmt.Errorf("run %d: %w", i, err)
 		}
+		if cs == "" {
+			continue // a run outside the loop model (forced periodic snapshots): implementation-side oracles only
+		}
 		cases = append(cases, cs)
 		seen[key] = true
 		if nt {
@@ -159,10 +162,18 @@ func oneLoopRun(r *Rng, out *AreaOut, idx int) (string, string, bool, error) {
 	h := hooks.New()
 	h.OtherUpdateSource = func() <-chan snapshot.Update { return updCh }
 	recvOnly := r.Chance(10) // receive-only instance: captures and merges, never uploads
+	// forced periodic snapshots with an interval that is always overdue: every pass uploads, whether or not the
+	// loop SAW a local change. The loop model has no forced snapshots, so these runs are judged by the C03 / C09
+	// oracles only (an application commit between the loop's env.Info() and SendOnce's transaction is still
+	// captured and published)
+	forcedMode := !recvOnly && r.Chance(9)
 	sy, err := newSyncer(env, st, syncerOpts{Native: native, DupHack: true, SyncerOpt: syncer.Options{Hooks: h, ReceiveOnly: recvOnly}, Mod: func(c *configT, lc *lmdbCfgT) {
 		c.StorageRetryCount = 3
 		c.StoragePollInterval = time.Hour
 		c.LMDBPollInterval = time.Millisecond
+		if forcedMode {
+			c.StorageForceSnapshotInterval = time.Nanosecond
+		}
 	}})
 	if err != nil {
 		return "", "", false, err
@@ -181,7 +192,7 @@ func oneLoopRun(r *Rng, out *AreaOut, idx int) (string, string, bool, error) {
 	// directed schedule (a third of the runs): a peer's snapshot that contains nothing new (an echo of this
 	// instance's own upload) is merged, then exactly ONE application transaction commits, then another echo
 	// arrives — the sequence in which a transaction id counted as synced by mistake shows
-	script := r.Chance(35) && !recvOnly
+	script := (r.Chance(35) && !recvOnly) || forcedMode
 	phase := 0
 	sawLoadEnd := false
 	if script {
@@ -189,7 +200,7 @@ func oneLoopRun(r *Rng, out *AreaOut, idx int) (string, string, bool, error) {
 	}
 	// a large fleet: a dozen peers' snapshots become ready in the same pass (more than the loop loads in a row
 	// when it has local changes pending)
-	burst := !script && r.Chance(7)
+	burst := !script && !forcedMode && r.Chance(7)
 	burstDone := false
 	if burst {
 		K, quiet = 120, 90
@@ -278,7 +289,28 @@ func oneLoopRun(r *Rng, out *AreaOut, idx int) (string, string, bool, error) {
 					nApp++
 					return nil
 				}
-				if p == "loop.sleep" {
+				if forcedMode {
+					// directed: one application commit at send.begin of a pass that is only a FORCED snapshot (the loop saw
+					// no local change), then a peer snapshot with nothing new, then quiet
+					switch {
+					case p == "loop.sleep" && newest == nil && phase == 0:
+						if err := commitOne(); err != nil {
+							cancel()
+							return "", "", false, err
+						}
+					case p == "loop.sleep" && phase == 0:
+						phase = 10
+					case p == "send.begin" && phase == 10 && !pendingCause:
+						if err := commitOne(); err != nil {
+							cancel()
+							return "", "", false, err
+						}
+						phase = 11
+					case p == "loop.sleep" && phase == 11:
+						injectEcho()
+						phase = 12
+					}
+				} else if p == "loop.sleep" {
 					switch {
 					case newest == nil && phase == 0:
 						if err := commitOne(); err != nil {
@@ -484,6 +516,10 @@ func oneLoopRun(r *Rng, out *AreaOut, idx int) (string, string, bool, error) {
 	// ---------------- implementation-side oracles (C03, C09, C10) ----------------
 	out.OracleN++
 	in := map[string]any{"cfg": cfg, "env": cEnv(before, last0), "acts": lst(acts), "clock0": clock0}
+	if forcedMode {
+		echo = nil // every pass uploads by configuration
+		hist(out.Hist, "forced-snapshots-every-pass/oracle-only")
+	}
 	for _, e := range echo {
 		out.Oracle = append(out.Oracle, OracleFailure{"C10", "echo-upload", e, in})
 	}
@@ -604,6 +640,9 @@ func oneLoopRun(r *Rng, out *AreaOut, idx int) (string, string, bool, error) {
 				out.Oracle = append(out.Oracle, OracleFailure{"C03", "write-destroyed" + window, fmt.Sprintf("application write to %s key %x (value %x, delete=%v) at yield %d (%s) was reverted/lost although no newer version arrived; stored now: %x", w.DBI, w.Key, w.Val, w.Del, w.Yield, w.Point, cur), in})
 			}
 		}
+	}
+	if forcedMode {
+		return "", key, false, nil
 	}
 	return cs, key, nApp+nInj > 0, nil
 }
